@@ -17,7 +17,7 @@ func init() {
 	register(&Property{
 		ID:    "C02",
 		Level: "other",
-		Run:   runC02,
+		Run:   func(c *Ctx) { runC02(c); c02Views(c) },
 		Trusted: []string{
 			"FIDE toggle table per move kind inside the checker (which (square,colour,piece) triples flip)",
 			"castling geometry derived from file/rank arithmetic: king home E-file, rook corners A/H, rook lands on D/F",
@@ -89,6 +89,19 @@ func (b *boardModel) specToggles(s moveSeed) []string {
 			toggle{fmt.Sprint(b.squares[lf+rank]), turn, rook}.String())
 	}
 	return mod2(items)
+}
+
+// c02Views: "every view of the position agrees with every other" includes the four rotated occupancies the slider
+// attack functions read. xor keeps them in step with the plain occupancy (R02-lockstep) only if the index table each
+// view is written through is a permutation and the window read back is the line it stands for (rule of C06,
+// re-decided here: a single aliased entry leaves the plain views right and one diagonal of one rotated view wrong).
+func c02Views(c *Ctx) {
+	r := c.R
+	r.Rule("R02-views", "the rotated views agree with the plain occupancy: each index table RotatedBitboard.Xor writes through is a permutation, and for every square and line kind the window the attack function reads maps through that table exactly onto the geometric line (rule of C06)", 3+4*64)
+	c.guard("R02-views", func() {
+		e := &c06env{c: c, in: newInterp(c.P), tables: map[string][]int64{}, viewTable: map[string]string{}, win: map[string][64]window{}, kind: map[string]lineKind{}, ok: map[string]bool{}}
+		r.WithAlias("R06-rot", "R02-views", func() { c06Tables(e) })
+	})
 }
 
 func runC02(c *Ctx) {
